@@ -13,6 +13,17 @@ NOTE_COMMON = (
 )
 
 CHECKS = {
+    "C01": dict(
+        technique="Lean 4 proof of the layers the export is composed of (chain walk C07, sector-chained reads C08, WAV assembly C04, transcoder C12) + a Lean model of the whole AKAI parser/exporter tied end-to-end to the real tool on images from an independent writer",
+        text=(
+            "The AKAI pipeline is modelled in full in Lean (partition scan, volume table, SAT decode, chain walk, file table, sample header, data window, naming, pairing, transcoder, RIFF assembly: lean/Smpl/Model/Akai*.lean) and that model is the one the driver runs. "
+            "Proved, for all inputs: get_path resolves any well-formed chain in any order (C07_getPath_wf); a FileStream over any chain order reads exactly the concatenation of its sectors for any position/size, incl. reads ending exactly on a sector boundary (mkChain_isFile, readPieces_spec); "
+            "the parser's segment content is that logical content (C01_segment_eq); WAV structure (C04), byte-order routing (C12). NOT yet closed as one theorem: C01_export = parse(ser d A) = expected d (needs the SAT-decoder correctness theorem C07_akai_wf and a Lean writer; stated in DESIGN). "
+            "Tie: logical discs -> independent Python writer -> real `export` and `ls` at every node vs the Lean model byte-for-byte (hash of every exported file), with head-not-lowest chains, exact-fill files (k*8192-140), empty windows, rate 0, directory runs; oracle computed from the logical model. "
+            "Found and repaired through this check: D1, D2, empty-window export (fix 170824f)."
+        ),
+        design_ref="DESIGN.md §4 C01",
+    ),
     "C03": dict(
         technique="Lean 4 proof (induction over the pairwise track walk; passthrough transcoder lemma by induction on blocks) + end-to-end export correspondence",
         text=(
@@ -32,6 +43,24 @@ CHECKS = {
             "Random generalized Samples (mono, split and interleaved stereo, 0-8 loops) are built by the real WavSampleBuilder and compared byte-for-byte with the model; every real file is also fed to the Lean validator, a Python restatement and stdlib wave."
         ),
         design_ref="DESIGN.md §4 C04",
+    ),
+    "C05": dict(
+        technique="Lean 4 proof (shape of a recognised stereo name) + exhaustive correspondence of the pairing routine over near-collision lists",
+        text=(
+            "Machine-checked so far: C05_stereo_shape — a name is recognised by the pairing rule only if it is stem ++ non-empty run of blanks/hyphens ++ L|R ++ blanks, so two names are paired only when they differ in nothing but that letter. "
+            "NOT yet proved: the partition theorem (no sample lost or duplicated under distinct names) — validated exhaustively instead. Tie: the stereo regex on every string of length <= 4 over {A,L,R,' ','-','.','1'}; combine_stereo_routine on every list of <= 3 (thorough 4) distinct names from a 20-name near-collision pool in every order, "
+            "random lists after the real export-name pass; oracle: every index exactly once, pairs exactly where names differ only in the final L/R, output names distinct, L in channel 0 through the real combine_stereo + WAV builder for both directory orders."
+        ),
+        design_ref="DESIGN.md §4 C05",
+    ),
+    "C06": dict(
+        technique="Lean 4 proof (head/non-emptiness of every export name) + exhaustive correspondence of sanitising and de-duplication + end-to-end CDDA exports with hostile titles",
+        text=(
+            "Machine-checked so far: C06_export_head — every export name is non-empty and starts with a word character (so no component is empty, '.', '..', or starts with a separator). NOT yet proved: the uniqueness theorem for the (repaired) de-duplication and the full character-set theorem — validated exhaustively instead. "
+            "Tie: make_safe_name/make_export_name on every string of length <= 3 (thorough 4) over an 18-character alphabet with / \\ . : quotes ( ) # and a control character; sanitize_names_general on every sibling list of length <= 3 (thorough 4) from the near-collision pool, both passes; "
+            "CDDA exports with '../x', separators, duplicate and blank titles checked on disk (inside destination, #files = #Exported lines, component rules). Found and repaired: D3, D4, D5."
+        ),
+        design_ref="DESIGN.md §4 C06",
     ),
     "C07": dict(
         technique="Lean 4 proof (induction over chains and fuel; the AKAI walk is defined by well-founded recursion with a checked termination measure) + exhaustive correspondence over all small raw tables",
@@ -56,6 +85,24 @@ CHECKS = {
         ),
         design_ref="DESIGN.md §4 C08",
     ),
+    "C09": dict(
+        technique="Lean 4 proof (the container views return the wrapped image; detection; invariance of anything computed from the view) + five-delivery end-to-end correspondence",
+        text=(
+            "Machine-checked: C09_mdf_view (the 2048-byte user-data view of any number of MODE1/2352 sectors is the image), C09_mdx_view (the MDX view is the image), C09_detect_mdf/_mdx/_raw (a wrapped delivery is recognised as what it is; an image whose third byte is 0 — every AKAI header — is never mistaken for a container), "
+            "C09_invariant (hence the kind of image, every ls answer and every exported file are the same for all deliveries), on top of mkMdf_isFile / mkOffset_isFile (the stream objects behave as files over those views, incl. reads straddling the 2048 boundary). "
+            "Tie: every generated AKAI image x {raw, 2352, MDX, cue->raw, cue->2352}: ls at every node and exported files identical across deliveries and equal to the Lean model, which detects and unwraps the container and follows the cue data track itself; sizes that are not multiples of 2048; all-audio cue -> CDDA. Roland images: pending C02."
+        ),
+        design_ref="DESIGN.md §4 C09",
+    ),
+    "C10": dict(
+        technique="Lean 4 proof (totality of the lookup, single-level round trip under distinct normalised names) + correspondence of tokenising/lookup/not-found message on real Traversable trees",
+        text=(
+            "Machine-checked so far: C10_total (for every path string the lookup finds a node or yields the `was not found` message: no exception path), C10_root, C10_child (in a directory whose children have pairwise distinct normalised names the token equal to a child's printed name finds exactly that child, at any depth of the remaining path). "
+            "NOT yet proved: the multi-level round-trip with blanks/trailing separators as one theorem. Tie: path tokenising on every string of length <= 4 over {a,A,/,\\,:,space} (plain and AKAI normalisation); trees of real Traversable/LeafElement objects with the real naming routines: "
+            "every node x 8 spellings of its printed path must resolve and render, arbitrary strings never raise, and the model's result (node or exact message) equals the real parse_path."
+        ),
+        design_ref="DESIGN.md §4 C10",
+    ),
     "C11": dict(
         technique="Lean 4 proof (frame/footprint argument over a shared store: every interleaving equals a product of independent abstract files) + exhaustive interleaving correspondence",
         text=(
@@ -74,6 +121,23 @@ CHECKS = {
             "Tie: exhaustive lattice 1..3 streams x {1,2,3} interleaved channels x width {1,2,4} x byte order per stream x lengths {0..3 frames + partial bytes} x block {1 frame, 2 frames, 4096} x host {LE, BE patched}, every source byte distinct."
         ),
         design_ref="DESIGN.md §4 C12",
+    ),
+    "C14": dict(
+        technique="Lean 4 proof (replacing one 24-byte table entry leaves every other entry's parse unchanged) + byte-sweep damage correspondence",
+        text=(
+            "Machine-checked: rd_setEntry / C14_other_entries — whatever 24 bytes replace entry k of an AKAI file table, every other entry parses to exactly what it parsed to before and its end-marker test is unchanged, because every entry is read at its own boundary 24*j (true after fix 3b83a7e; the pinned code lost all following entries: D9). "
+            "Tie: for generated volumes every type-byte value and a set of values of each of the other 23 byte positions of an entry (thorough: all 256), plus multi-byte damage: ls + export compared with the undamaged run (oracle) and with the Lean model. "
+            "Recorded finding KF-C14-name-collision (a damaged name that now equals a sibling's name renames one of them: inherent to naming by stored name). Roland records: pending C02."
+        ),
+        design_ref="DESIGN.md §4 C14",
+    ),
+    "C16": dict(
+        technique="Lean 4 proof over an explicit object-state machine (answers do not read the state) + history correspondence against fresh objects",
+        text=(
+            "Machine-checked: C16_pure — with the object state made explicit (memoised levels, data-stream cursors) and the operations ls p / export, the answer to any operation after any history equals the answer from any other state, in particular a fresh object. In the model no answer reads the state (the transcoder rewinds first: fix 9bb4eeb); "
+            "that the CODE has no such dependency is what the tie checks: random histories of 2-8 operations (ls at valid/invalid/too-deep paths, export, repeated export) on one opened image vs a fresh object per operation, AKAI and CDDA, image SHA-256 before/after, and the Lean model's answers. Found and repaired: D10."
+        ),
+        design_ref="DESIGN.md §4 C16",
     ),
     "C17": dict(
         technique="Lean 4 proof (induction over the classified line list for the three nested consumers; list lemmas for strip) + hand-written regex matchers validated against the four re objects",
